@@ -1,10 +1,10 @@
 package main
 
 import (
-	"go/types"
 	"fmt"
 	"go/ast"
 	"go/token"
+	"go/types"
 	"strings"
 )
 
